@@ -246,8 +246,7 @@ int start(m_mod_t *mod, bool starting) {
         break;
     case -1:
         /* on_start() hook returned false, we need to stop this module right away */
-        stop(mod, true);
-        ret = 0;
+        ret = stop(mod, true); // -ENOENT if module was deregistered in on_stop() hook: caller must not touch it anymore
         break;
     case -ENOENT:
         // module was deregistered in on_start() hook
